@@ -527,8 +527,9 @@ theorem cachedCall_hit (st : CacheState) (k : CacheKey) (c : Nat) (hk : k.hashab
   simp [cachedCall, hk, h]
 
 /-- **Cache.** Once `config_for` has been called with hashable arguments, calling it again with the
-    same arguments returns the *same class object*, whatever calls (any number, any arguments,
-    hashable or not) happened in between. -/
+    same arguments returns the *same class object*, whatever calls (any number — the cache is
+    unbounded, `maxsize=None` —, any arguments, any other callables, hashable or not) happened in
+    between: a lookup after any number of other insertions returns the first class. -/
 theorem c20_cached (st : CacheState) (k : CacheKey) (hk : k.hashable = true) (ks : List CacheKey) :
     (cachedCall (runCalls (cachedCall st k).2 ks).2 k).1 = (cachedCall st k).1 :=
   cachedCall_hit _ k _ hk (runCalls_keeps ks _ k _ (cachedCall_stores st k hk))
@@ -857,5 +858,51 @@ example : Inferable [] [S "d"] [(S "c", 9, .int)] cfgSig := by
 example : configFor [] [S "d"] [(S "c", 9, .int)] cfgSig = .ok
     [ { name := S "e", default := none }, { name := S "b", default := none },
       { name := S "c", default := some 9 } ] := by rfl
+
+/-! ### docstring `Args:` entries -/
+
+/-- **Only the first colon separates.** An entry line `key: description` is split at its first
+    colon, so the description may itself contain any number of colons (ratios, URLs, "one of: …"). -/
+theorem c20_doc_entry_colons (k d : Str) (hk : ':' ∉ k) :
+    splitFirstColon (k ++ ':' :: d) = some (k, d) := by
+  induction k with
+  | nil => simp [splitFirstColon]
+  | cons c cs ih =>
+    have hc : c ≠ ':' := fun e => hk (by simp [e])
+    have hcs : ':' ∉ cs := fun h => hk (by simp [h])
+    simp [splitFirstColon, hc, ih hcs]
+
+/-- a line without any colon is the only way an entry line is rejected -/
+theorem c20_doc_entry_rejected (s : Str) : splitFirstColon s = none ↔ ':' ∉ s := by
+  induction s with
+  | nil => simp [splitFirstColon]
+  | cons c cs ih =>
+    by_cases hc : c = ':'
+    · simp [splitFirstColon, hc]
+    · have hc' : ¬ (':' = c) := fun e => hc e.symm
+      cases h : splitFirstColon cs with
+      | none => simp [splitFirstColon, hc, hc', h, ih.mp h]
+      | some p =>
+        have : ¬ (':' ∉ cs) := fun hn => by rw [ih.mpr hn] at h; cases h
+        have this := Decidable.not_not.mp this
+        simp [splitFirstColon, hc, h, this]
+
+/-- one documented description for a parameter ⇒ that description is its help text; the
+    `__init__` docstring takes precedence over the class docstring -/
+theorem c20_help_unique_init (initE classE : List (Str × Str)) (name h : Str)
+    (hu : helpEntries initE name = [h]) : pickHelp initE classE name = some h := by
+  simp [pickHelp, hu]
+
+theorem c20_help_unique_class (initE classE : List (Str × Str)) (name h : Str)
+    (hi : helpEntries initE name = []) (hu : helpEntries classE name = [h]) :
+    pickHelp initE classE name = some h := by
+  simp [pickHelp, hi, hu]
+
+example : parseArgsDoc "R.\n\n Args:\n     s: 1:2\n         or 3:4\n     m (str): one of: a, b\n\n Returns:\n     d: x\n ".toList
+    = .ok [(S "s", S "1:2 or 3:4"), (S "m (str)", S "one of: a, b")] := by
+  rfl
+example : pickHelp [] [(S "scale", S "a ratio like 1:2"), (S "mode (str)", S "one of: a, b")] (S "mode")
+    = some (S "one of: a, b") := by decide
+example : parseArgsDoc "Args:\n    no separator".toList = .valueError := by decide
 
 end SpVerif.C20
